@@ -9,7 +9,7 @@ var stdAssumptions = []string{
 }
 
 var modelSig = "ideal signature scheme: PUB/SIG_n/INV uninterpreted with INV(PUB(s))=s; ed25519 length panics kept; real ed25519 trusted and used in native replay"
-var modelCodec = "ideal lossless protobuf codec at message level (required fields from struct tags, enum values pass through, decoded byte fields get fresh buffers with spare capacity); protobuf-go byte decoder trusted"
+var modelCodec = "ideal lossless protobuf codec at message level (Marshal checks required fields from struct tags unless AllowPartial; Unmarshal applies the required-field check as measured on protobuf-go 1.34.2, i.e. not below a oneof member other than the first; enum values pass through; decoded byte fields get fresh buffers with spare capacity, repeated fields the capacity of one-at-a-time append); protobuf-go byte decoder trusted"
 var modelBig = "math/big NewInt/Add/Sub/Mul/IsInt64/Int64 as exact 128-bit bit-vector arithmetic on int64-range operands"
 var modelCtx = "context.WithTimeout replaced by a context whose Done channel fires at a nondeterministic monotone moment (or never, where stated)"
 
@@ -81,7 +81,7 @@ func init() {
 		Models:      []string{modelCtx},
 		Explanation: "World.Run/Rule.Apply/combine (with its producer goroutine) are executed symbolically on a symbolic program; result checked against closure + well-founded derivation conditions, which characterise the least model",
 		LevelText:   "Bounded symbolic model checking of the Datalog engine: for every program shape within the bounds, with symbolic predicate names and constants (so which predicates/constants coincide is decided by the solver), the facts left by Run are shown closed under every rule and each derived fact is shown to have a derivation from earlier facts (together: exactly the least model); QueryRule is shown sound and complete w.r.t. the declarative matching definition.",
-		LevelNote:   "Bounds on program size as listed in evidence; limits/timeouts excluded (C11); expressions other than one integer comparison excluded (C06). Goroutines/channels of combine are interpreted by a deterministic scheduler (behaviour is schedule independent: coroutine).",
+		LevelNote:   "Bounds on program size as listed in evidence; limits/timeouts excluded (C11); expressions other than one integer comparison excluded (C06); a separate entry queries facts of mixed kinds, on some of which the comparison cannot be evaluated. Goroutines/channels of combine are interpreted by a deterministic scheduler (behaviour is schedule independent: coroutine).",
 		DesignRef:   "DESIGN.md §6 C05",
 	})
 }
